@@ -206,11 +206,21 @@ fn main() {
                 }
                 // the diagnostic points inside the source and can be rendered
                 use miette::Diagnostic;
+                let mut covered = false;
                 if let Some(labels) = e.labels() {
                     for l in labels {
                         if let Some(b) = check_span(&text, l.offset(), l.len()) {
                             emit("span", format!("diagnostic `{e}`: {b}"));
+                        } else if let Some(cp) = d["cp"].as_str() {
+                            covered |= text[l.offset()..l.offset() + l.len()].contains(cp);
                         }
+                    }
+                }
+                // a document made invalid by one forbidden code point: the diagnostic points at it
+                if let Some(cp) = d["cp"].as_str() {
+                    let m = format!("{e}");
+                    if !covered && (m.contains("codepoint") || m.contains("control code")) {
+                        emit("span", format!("diagnostic `{e}`: no label covers the offending code point U+{:04X}", cp.chars().next().map(|c| c as u32).unwrap_or(0)));
                     }
                 }
                 let e2 = format!("{e}");
@@ -332,10 +342,50 @@ fn main() {
         }
         // ---- C14: resolution against an empty package table must return, not crash
         if d["resolve"] == true {
-            match guarded(|| doc.resolve(Default::default()).map(|r| guarded(|| r.encode(Default::default()).is_ok()))) {
-                Err(p) => emit("panic", format!("Document::resolve panicked: {p}")),
-                Ok(Ok(Err(p))) => emit("panic", format!("Resolution::encode panicked: {p}")),
-                _ => {}
+            // the diagnostics of resolution and encoding point inside the source and can be rendered
+            let diag = |e: wac_parser::resolution::Error, stage: &str| {
+                use miette::Diagnostic;
+                let mut bad = Vec::new();
+                if let Some(labels) = e.labels() {
+                    for l in labels {
+                        if let Some(b) = check_span(&text, l.offset(), l.len()) {
+                            bad.push(format!("{stage} diagnostic `{e}`: {b}"));
+                        }
+                    }
+                }
+                let e2 = format!("{e}");
+                let r = guarded(|| {
+                    let report = miette::Report::new(e).with_source_code(text.clone());
+                    format!("{report:?}")
+                });
+                (bad, r.err().map(|p| format!("rendering the {stage} diagnostic `{e2}` panicked: {p}")))
+            };
+            let (mut spans, mut renders, mut panics) = (Vec::new(), Vec::new(), Vec::new());
+            match guarded(|| doc.resolve(Default::default())) {
+                Err(p) => panics.push(format!("Document::resolve panicked: {p}")),
+                Ok(Err(e)) => {
+                    let (b, r) = diag(e, "resolution");
+                    spans.extend(b);
+                    renders.extend(r);
+                }
+                Ok(Ok(r)) => match guarded(|| r.encode(Default::default())) {
+                    Err(p) => panics.push(format!("Resolution::encode panicked: {p}")),
+                    Ok(Err(e)) => {
+                        let (b, r) = diag(e, "encoding");
+                        spans.extend(b);
+                        renders.extend(r);
+                    }
+                    Ok(Ok(_)) => {}
+                },
+            }
+            for p in panics {
+                emit("panic", p);
+            }
+            for s in spans {
+                emit("span", s);
+            }
+            for r in renders {
+                emit("render", r);
             }
         }
         // ---- C17: package discovery
